@@ -749,6 +749,10 @@ static int stack_compact_locked(struct reftable_stack *st, int first, int last,
 	int tab_fd = -1;
 	struct reftable_writer *wr = NULL;
 	int err = 0;
+	/* A compaction copies records; it must not normalise reflog messages
+	   that another handle stored verbatim. */
+	struct reftable_write_options opts = st->config;
+	opts.exact_log_message = 1;
 
 	format_name(&next_name,
 		    reftable_reader_min_update_index(st->readers[first]),
@@ -758,7 +762,7 @@ static int stack_compact_locked(struct reftable_stack *st, int first, int last,
 	strbuf_addstr(temp_tab, ".temp.XXXXXX");
 
 	tab_fd = mkstemp(temp_tab->buf);
-	wr = reftable_new_writer(reftable_fd_write, &tab_fd, &st->config);
+	wr = reftable_new_writer(reftable_fd_write, &tab_fd, &opts);
 
 	err = stack_write_compact(st, wr, first, last, config);
 	if (err < 0)
